@@ -749,7 +749,14 @@ func minimiseAndConfirm(bin, id, tier string, r *RunResult, idx int) (string, bo
 	}
 	ok := func() bool { return n < budget && time.Now().Before(deadline) }
 	// first make sure the original reproduces at all
-	if _, good := tryTapes(bin, rf, w, s, scratch, 0); !good {
+	// (three attempts: a defect that makes two tasks share memory without synchronisation
+	// makes the execution itself racy between two scheduling points; such a violation
+	// reproduces often, not always)
+	reproduced := false
+	for attempt := 0; attempt < 3 && !reproduced; attempt++ {
+		_, reproduced = tryTapes(bin, rf, w, s, scratch, 0)
+	}
+	if !reproduced {
 		return "", false
 	}
 	cut := func(t []uint32, i, j int) []uint32 {
